@@ -256,3 +256,31 @@ def overflow_boundary_pairs(w):
             seen.add(p)
             out.append(p)
     return out
+
+
+def overflow_exact_pairs(name, w, rng):
+    """operand pairs whose exact result is exactly at, or one past, a signed or unsigned limit"""
+    m = (1 << w) - 1
+    smax, smin = (1 << (w - 1)) - 1, -(1 << (w - 1))
+    limits = [m, m + 1, smax, smax + 1, smin, smin - 1, 0, -1]
+    xs = [0, 1, 2, smax, smax - 1, 1 << (w - 1), (1 << (w - 1)) + 1, m, m - 1, rng.getrandbits(w), rng.getrandbits(w - 2)]
+    out = []
+    if name.startswith('ADD') or name.startswith('SUB'):
+        for L in limits:
+            for x in xs:
+                for xv in (x, x - (1 << w) if x >> (w - 1) else x):      # unsigned and signed reading of x
+                    y = (L - xv) if name.startswith('ADD') else (xv - L)
+                    if -(1 << w) < y < (1 << w):
+                        out.append((x & m, y & m))
+    else:
+        for i in range(0, w + 1):
+            for j in (w - 1 - i, w - i, w - 2 - i):
+                if 0 <= j <= w:
+                    a, b = (1 << i) & m, (1 << j) & m
+                    out += [(a, b), ((-a) & m, b), (a, (-b) & m), ((-a) & m, (-b) & m), ((a - 1) & m, b), (a, (b + 1) & m)]
+    seen, res = set(), []
+    for p in out:
+        if p not in seen:
+            seen.add(p)
+            res.append(p)
+    return res
